@@ -211,6 +211,11 @@ func runCase(t *rapid.T, replay []step) {
 			case 8, 9, 10, 11:
 				st = step{Kind: "publish", Args: []string{rapid.SampledFrom(append(append([]string{}, chanPool...), "zzz")).Draw(t, "pch")}, Count: 1}
 			case 12, 13:
+				if rapid.IntRange(0, 59).Draw(t, "flood") == 0 {
+					// a flood to subscribers that do not read for a while: far more than the server can queue
+					st = step{Kind: "flood", Args: []string{rapid.SampledFrom(chanPool).Draw(t, "pch")}, Count: 16000}
+					break
+				}
 				st = step{Kind: "publish", Args: []string{rapid.SampledFrom(chanPool).Draw(t, "pch")}, Count: rapid.SampledFrom([]int{2, 5, 20, 60, 300}).Draw(t, "burst")}
 			default:
 				st = step{Kind: "introspect"}
@@ -359,6 +364,89 @@ func runCase(t *rapid.T, replay []step) {
 					fail("subscriber %d (channels %v, patterns %v, %d matching subscription(s) for %q): %s; published %s, received %s", i, keysOf(w.tab[i].chans), keysOf(w.tab[i].pats), k, ch, problem, brief(sent), brief(got))
 				}
 			}
+		case "flood":
+			ch := st.Args[0]
+			bigBurst = true
+			pad := strings.Repeat("x", 1000)
+			sent := make([]string, 0, st.Count)
+			var buf []byte
+			for i := 0; i < st.Count; i++ {
+				w.seq++
+				p := fmt.Sprintf("m%06d%s", w.seq, pad)
+				sent = append(sent, p)
+				buf = append(buf, sut.Encode("PUBLISH", ch, p)...)
+			}
+			// the publisher writes and reads on goroutines of its own: while the subscribers do not read, the
+			// server may stop taking publishes, and nothing here may wait for it
+			sendErr := make(chan error, 1)
+			ackErr := make(chan string, 1)
+			go func() { sendErr <- w.pub.Send(buf) }()
+			go func() {
+				for i := 0; i < st.Count; i++ {
+					if _, _, err := w.pub.ReadValue(60 * time.Second); err != nil {
+						ackErr <- fmt.Sprintf("PUBLISH %d of %d to %q was not answered: %v", i+1, st.Count, ch, err)
+						return
+					}
+				}
+				ackErr <- ""
+			}()
+			time.Sleep(150 * time.Millisecond) // nobody reads: socket buffers and the server's queues fill up
+			type res struct {
+				got     []string
+				problem string
+			}
+			results := make([]chan res, len(w.subs))
+			for i := range w.subs {
+				i := i
+				results[i] = make(chan res, 1)
+				want := w.tab[i].matches(ch) * st.Count
+				go func() {
+					var got []string
+					for len(got) < want {
+						v, raw, err := w.subs[i].ReadValue(15 * time.Second)
+						if err != nil {
+							if sut.IsTimeout(err) {
+								results[i] <- res{got, ""} // judged below: some message is missing
+								return
+							}
+							results[i] <- res{got, fmt.Sprintf("subscriber %d: malformed frame %q: %v", i, trunc(string(raw), 120), err)}
+							return
+						}
+						kind, f := frame(v)
+						if kind != "message" && kind != "pmessage" {
+							results[i] <- res{got, fmt.Sprintf("subscriber %d: unexpected frame %s during a flood", i, trunc(v.Canon(), 120))}
+							return
+						}
+						if p := f[len(f)-1]; !strings.HasPrefix(p, "s") {
+							got = append(got, p)
+						}
+					}
+					results[i] <- res{got, ""}
+				}()
+			}
+			var all []res
+			for i := range w.subs {
+				all = append(all, <-results[i])
+			}
+			if msg := <-ackErr; msg != "" {
+				fail("%s", msg)
+			}
+			<-sendErr
+			for i, r := range all {
+				if r.problem != "" {
+					fail("%s (flood of %d messages to %q)", r.problem, st.Count, ch)
+				}
+				// nothing beyond the expected number may follow
+				if extra, _, err := w.subs[i].ReadValue(20 * time.Millisecond); err == nil {
+					if kind, _ := frame(extra); kind == "message" || kind == "pmessage" {
+						r.got = append(r.got, "(one more)")
+					}
+				}
+				if problem := judge(sent, r.got, w.tab[i].matches(ch)); problem != "" {
+					fail("subscriber %d (%d matching subscription(s) for %q), flood of %d messages of 1 KB published while nobody was reading for 150 ms: %s", i, w.tab[i].matches(ch), ch, st.Count, trunc(problem, 200))
+				}
+			}
+			rec.Class("flood to stalled subscribers")
 		case "introspect":
 			// NUMSUB
 			r := w.obs.Do(append([]string{"PUBSUB", "NUMSUB"}, chanPool...)...)
